@@ -197,6 +197,8 @@ def main():
                 out.append(served(ev[1], getattr(atom(ev[1], ev[2]), ev[3])))
             elif kind == "has":
                 out.append(dict(k="bool", b=bool(hasattr(atom(ev[1], ev[2]), ev[3]))))
+            elif kind == "indict":
+                out.append(dict(k="bool", b=bool(ev[3] in atom(ev[1], ev[2]).__dict__)))
             elif kind == "set":
                 setattr(atom(ev[1], ev[2]), ev[3], (USER, ev[1]))
                 out.append(dict(k="ok"))
